@@ -13,7 +13,7 @@ regular file created or changed inside dest/ must lie, physically, at the lexica
 output name (so nothing was written through a symlink); `cabextract -l` must print exactly the names
 the model predicts (isunix from the model of unix_path_seperators)."""
 import hashlib, os, re, shutil, stat, subprocess
-from concurrent.futures import ThreadPoolExecutor
+from concurrent.futures import ProcessPoolExecutor
 from lib import common as C, minicab
 from lib.pipeline import Finding, run_cases
 
@@ -44,7 +44,8 @@ FSROOT = os.path.join(C.BUILD, "fs")
 # Names that start with a separator always continue with the jail's own absolute path in the same separator style (contain()).
 DEPTH = 88
 
-def jail_of(idx): return os.path.join(FSROOT, f"{os.getpid()}-{idx}").encode()
+RUN_ID = None      # pid of the process that planned the scenarios (worker processes inherit it)
+def jail_of(idx): return os.path.join(FSROOT, f"{RUN_ID or os.getpid()}-{idx}").encode()
 def root_of(idx): return jail_of(idx) + b"/j" * DEPTH
 def subst(b, root):
     """@ROOT@ = absolute path of the test root, @ROOTB@ = the same written with backslashes"""
@@ -113,7 +114,7 @@ def generate(ctx):
         lines.append(f"prim outname {nm.hex()} 1 {rng.randrange(2)} {rng.choice(DIRS)}")
         if len(lines) >= 500: yield from flush("prim.outname")
     yield from flush("prim.outname")
-    n = 4000 if quick else 80000
+    n = 4000 if quick else 150000
     for i in range(n):
         nm = rand_name(rng)
         lines.append(f"prim outname {C.hexs(nm)} {rng.randrange(2)} {rng.randrange(2)} {rng.choice(DIRS)}")
@@ -287,7 +288,7 @@ def fs_scenarios(ctx):
     yield scenario(one(b"hl_out"), [], [], "rel", "fs.corpus", hard=True, note="hard link to an outside file as final component: replaced, not written through")
     yield scenario(one(b"hl_out"), [], ["-n"], "cwd", "fs.corpus", hard=True)
     # ---- random
-    n = 260 if ctx.tier == "quick" else 12000
+    n = 260 if ctx.tier == "quick" else 30000
     lnames = list(LINKS)
     for i in range(n):
         opts = []
@@ -575,9 +576,27 @@ def model_request(s, idx):
     d = "-" if dirarg is None else (dirarg.hex() or "=")
     return f"prim outnames {1 if '-L' in s['opts'] else 0} {d} " + " ".join(f"{C.hexs(m['name'])} {1 if m['utf8'] else 0}" for m in mm)
 
+def _fs_job(job):
+    exe, i, s, mline = job
+    try:
+        return run_fs(exe, i, s, mline)
+    except Exception as e:
+        import traceback
+        return [Finding("mismatch", "fs runner raised " + repr(e) + traceback.format_exc()[-500:])], {}
+
 class _Sub:
     """the case-file view run_cases needs"""
     def __init__(self, cw, paths): self.paths, self.meta = paths, cw.meta
+
+def private_copy(exe, d):
+    """the harness directory is shared and is deleted when another check builds a harness for different sources
+    (lib/common.harness_dir drops `stale` builds); a long run keeps its own copy of the binary"""
+    try:
+        dst = os.path.join(d, "cabextract.bin")
+        shutil.copy2(exe, dst)
+        return dst
+    except OSError:
+        return exe
 
 def custom_run(ctx, res, cw):
     viol, mism = [], []
@@ -593,7 +612,7 @@ def custom_run(ctx, res, cw):
     for p in prim:
         cw.meta[p].pop("_reqs", None)
     # ---- fs
-    exe = os.path.join(ctx.hdir, "cabextract")
+    exe = private_copy(os.path.join(ctx.hdir, "cabextract"), cw.dir)
     if not os.path.exists(exe):
         mism.append((cw.paths[0] if cw.paths else "", {"family": "fs"}, Finding("mismatch", "the cabextract binary was not built")))
         return viol, mism
@@ -608,6 +627,8 @@ def custom_run(ctx, res, cw):
             p = cw.add(scn_lines(s), dict(family=s["family"], opts=s["opts"], dmode=s["dmode"], links=s["links"], note=s["note"]))
             scns.append((p, s))
     os.makedirs(FSROOT, exist_ok=True)
+    global RUN_ID
+    RUN_ID = os.getpid()
     # model names for all scenarios in one driver run
     mlines = {}
     if model_ok and scns:
@@ -620,16 +641,11 @@ def custom_run(ctx, res, cw):
             mlines = dict(enumerate(outs))
         else:
             mism.append((mp, {"family": "fs"}, Finding("mismatch", f"driver answered {len(outs)} of {len(reqs)} `prim outnames` requests: {r.stdout[-200:]} {r.stderr[-200:]}")))
-    def work(i):
-        p, s = scns[i]
-        try:
-            return run_fs(exe, i, s, mlines.get(i))
-        except Exception as e:
-            import traceback
-            return [Finding("mismatch", "fs runner raised " + repr(e) + traceback.format_exc()[-500:])], {}
     seen = set()
-    with ThreadPoolExecutor(max_workers=max(2, C.NCPU)) as ex:
-        for i, (fs, st) in enumerate(ex.map(work, range(len(scns)))):
+    # worker processes (the Python side - snapshots, hashing - is CPU-bound, threads would serialise on the GIL)
+    jobs = [(exe, i, scns[i][1], mlines.get(i)) for i in range(len(scns))]
+    with ProcessPoolExecutor(max_workers=max(2, C.NCPU)) as ex:
+        for i, (fs, st) in enumerate(ex.map(_fs_job, jobs, chunksize=4)):
             p, s = scns[i]
             res.cov["evaluations"] += 1
             STATS["fs_scenarios"] += 1
